@@ -1,8 +1,10 @@
 ------------------------------ MODULE Streams ------------------------------
 (***************************************************************************)
 (* Intensional long streams (C13).  A schedule is a short sequence of      *)
-(* segments [pat |-> <<inputs>>, reps |-> k]: the pattern repeated k       *)
-(* times.  StreamAt(t) is the t-th input in closed form, so TLC can state  *)
+(* segments [pat |-> <<inputs>>, reps |-> k, ramp |-> d]: the pattern      *)
+(* repeated k times, every repetition moved by d price units against the   *)
+(* previous one (d = 0: plain repetition; pat of length 1 and d = -1: a    *)
+(* strictly falling stream).  StreamAt(t) is the t-th input in closed form, so TLC can state  *)
 (* the expected output at step 1 999 999 of a 2*10^6-step stream without   *)
 (* taking 2*10^6 steps: for a windowed kind the reference state IS the     *)
 (* window of the last Memory(kind, p) inputs (TaRef), hence the expected   *)
@@ -21,18 +23,20 @@ TotalFrom(j) == IF j > Len(Sched) THEN 0 ELSE SegLen(Sched[j]) + TotalFrom(j + 1
 Total == TotalFrom(1)
 
 RECURSIVE SAt(_, _)
-SAt(j, r) == IF r <= SegLen(Sched[j]) THEN Sched[j].pat[((r - 1) % Len(Sched[j].pat)) + 1]
-            ELSE SAt(j + 1, r - SegLen(Sched[j]))
+MoveIn(in, d) == IF d = 0 THEN in
+                 ELSE IF in.ty = "s" THEN [in EXCEPT !.x = @ + d]
+                 ELSE [in EXCEPT !.o = @ + d, !.h = @ + d, !.l = @ + d, !.c = @ + d]
+SAt(j, r) == IF r <= SegLen(Sched[j])
+             THEN MoveIn(Sched[j].pat[((r - 1) % Len(Sched[j].pat)) + 1], Sched[j].ramp * ((r - 1) \div Len(Sched[j].pat)))
+             ELSE SAt(j + 1, r - SegLen(Sched[j]))
 StreamAt(t) == SAt(1, t)
 
 IMin2(a, b) == IF a < b THEN a ELSE b
 WindowAt(t, n) == LET k == IMin2(n, t) IN [i \in 1..k |-> StreamAt(t - k + i)]
 
 \* largest single-bar (3 x) money flow anywhere in the schedule: an upper bound of "since reset" (MFI conditioning)
-RECURSIVE SeqMax(_, _)
-SeqMax(s, k) == IF k > Len(s) THEN 0 ELSE IMax(s[k], SeqMax(s, k + 1))
-PatFlow(g) == SeqMax([i \in 1..Len(g.pat) |-> Abs(Tp3(g.pat[i]) * g.pat[i].v)], 1)
-SchedFlow == SeqMax([j \in 1..Len(Sched) |-> PatFlow(Sched[j])], 1)
+PatFlow(g) == FoldLeft(LAMBDA a, in : IMax(a, IF in.ty = "b" THEN Abs(Tp3(in) * in.v) ELSE 0), 0, g.pat)
+SchedFlow == FoldLeft(LAMBDA a, g : IMax(a, PatFlow(g)), 0, Sched)
 
 \* the reference state that holds the window `pre` (all but the newest input of the window at t)
 StateOf(pre) ==
